@@ -2,9 +2,9 @@
 import re
 
 from . import absint as A
-from .lib import callers, closure_args_of_call, operand_local, try_edges
+from .lib import callers, closure_args_of_call, operand_local, result_split, try_edges
 from .lib_c01 import (VALUE_PRESERVING, access_path, always_err_try_edges, bool_switch_of_call, conflict_loop, dead_ends, edge_is_rejecting,
-                      enum_switches, ok_return_blocks, option_edges, Renamed, PRE_FIX_F3_EDITS)
+                      enum_switches, ok_return_blocks, option_edges, sources, Renamed, PRE_FIX_F3_EDITS)
 
 LEVEL = "other"
 TECHNIQUE = ("static analysis: dominance of router.insert by the three validations' Continue edges, decision tables read off the MIR switches of HttpRouter::insert "
@@ -59,10 +59,10 @@ def r1_validation_before_insert(ctx):
             ctx.check(R, "%s-dominates-insert" % v, False, "%s is called %d time(s) in %s: an endpoint reaches the router without this validation" % (v, len(vc), reg.id), (reg, ibb))
             continue
         vbb, vt = vc[0]
-        te = try_edges(reg, vt["dest"]["l"])
-        okd = te is not None and reg.edge_dominates(te["switch_bb"], te["cont"], ibb) and ibb not in reg.reachable(te["brk"]) and \
-            not any(b in reg.reachable(te["brk"]) for b in ok_return_blocks(reg))
-        ctx.check(R, "%s-dominates-insert" % v, okd, "`%s(..)?`: insert is dominated by its Continue edge and its Break edge returns the error without inserting: %s" % (v, okd), (reg, vbb))
+        sp = result_split(reg, vt["dest"]["l"])       # `x?`, `x.map_err(..)?`, match, if-let, let-else alike
+        okd = sp is not None and reg.edge_dominates(sp["switch_bb"], sp["ok"], ibb) and ibb not in reg.reachable(sp["err"]) and \
+            not any(b in reg.reachable(sp["err"]) for b in ok_return_blocks(reg))
+        ctx.check(R, "%s-dominates-insert" % v, okd, "`%s(..)`: insert is dominated by the Ok edge of its result and the Err edge returns the error without inserting: %s" % (v, okd), (reg, vbb))
         ps = access_path(reg, vt["args"][0], VP)
         pa = access_path(reg, vt["args"][1], VP)
         ctx.check(R, "%s-checks-the-inserted-endpoint" % v, pa.kind() == "param" and pa.root[1] == pe.root_local() and not pa.path and ps.kind() == "param" and ps.root[1] == pr.root_local() and not ps.path,
@@ -73,8 +73,13 @@ def r1_validation_before_insert(ctx):
     d = "callers of %s: %s" % (reg.id, sorted(f.id for f, _, _ in rc))
     if len(rc) == 1:
         top, cbb, ct = rc[0]
+        sp = result_split(top, ct["dest"]["l"])
+        if sp is not None:
+            oks = ok_return_blocks(top)
+            okp = bool(oks) and all(top.edge_dominates(sp["switch_bb"], sp["ok"], b) for b in oks) and not any(b in top.reachable(sp["err"]) for b in oks)
+            d = "%s: Ok(()) is returned only on the Ok edge of _register(..)'s result (split by %s): %s" % (top.id, "/".join(sp["via"]), okp)
         # the value that is `?`-ed derives from the _register call through map_err only
-        for tbb, tt in top.live_calls(r"ops::Try::branch$"):
+        for tbb, tt in (top.live_calls(r"ops::Try::branch$") if not okp else []):
             p = access_path(top, tt["args"][0], VP + [r"Result::<T, E>::map_err$"])
             if p.call() and p.call()[2] is ct and not p.path:
                 te = try_edges(top, operand_local(tt["args"][0]))
@@ -376,7 +381,8 @@ def _closure_variant_table(h, adt_pattern):
         s = [(b, st) for b, st in somes if b in r]
         n = [(b, st) for b, st in nones if b in r]
         if len(s) == 1 and not n:
-            out[v] = ("Some", s[0][1]["rv"]["ops"][0])
+            # the payload as seen from this variant's edge: an or-pattern `A(v) | B(v) => Some(v)` binds v once per alternative
+            out[v] = ("Some", sources(h, s[0][1]["rv"]["ops"][0], VP, via=tgt))
         elif n and not s:
             out[v] = ("None", None)
         else:
@@ -420,10 +426,9 @@ def r5_parameter_rules(ctx):
                 pin = access_path(hp, info["place"], VP)
                 src_ok = pin.is_call(r"^router::PathSegment::from$") and access_path(hp, pin.call()[2]["args"][0], VP).kind() == "param"
                 pay = {}
-                for v, (k, op) in tab.items():
+                for v, (k, qs) in tab.items():
                     if k == "Some":
-                        q = access_path(hp, op, VP)
-                        pay[v] = q.root_local() == pin.root_local() and q.path == ["as " + v, "0"]
+                        pay[v] = bool(qs) and all(q.root_local() == pin.root_local() and q.path == ["as " + v, "0"] for q in qs)
                 okp = src_ok and {v: k for v, (k, _) in tab.items()} == {"Literal": "None", "VarnameSegment": "Some", "VarnameWildcard": "Some"} and all(pay.values())
                 d = "PathSegment::from(segment): %s (payload is the variable name: %s)" % ({v: k for v, (k, _) in sorted(tab.items())}, pay)
         ctx.check(R, "vpp:template-variables-are-both-variable-kinds", okp, d, hp or vpp)
@@ -436,8 +441,8 @@ def r5_parameter_rules(ctx):
                 kinds = {v: k for v, (k, _) in tab.items()}
                 pay = False
                 if tab.get("Path", ("?", None))[0] == "Some":
-                    q = access_path(hv, tab["Path"][1], VP)
-                    pay = q.root == pin.root and q.path == pin.path + ["as Path", "0"]
+                    qs = tab["Path"][1]
+                    pay = bool(qs) and all(q.root == pin.root and q.path == pin.path + ["as Path", "0"] for q in qs)
                 okq = pin.kind() == "param" and pin.path == ["metadata"] and kinds.get("Path") == "Some" and all(k == "None" for v, k in kinds.items() if v != "Path") and pay
                 d = "parameter.metadata: %s (payload is the Path name: %s)" % (dict(sorted(kinds.items())), pay)
         ctx.check(R, "vpp:parameter-side-is-the-Path-parameters", okq and sv.params() == [2], d, hv or vpp)
@@ -484,11 +489,11 @@ def r5_parameter_rules(ctx):
         if tab is not None:
             pin = access_path(hm, info["place"], VP)
             got = {}
-            for v, (k, op) in tab.items():
+            for v, (k, qs) in tab.items():
                 if k != "Some":
                     got[v] = k
                     continue
-                q = access_path(hm, op, VP)
+                q = qs[0] if len(qs) == 1 else access_path(hm, {"l": 0, "p": []}, [])
                 if q.kind() == "agg" and q.root[2].get("agg") == "tuple" and len(q.root[2]["ops"]) == 2:
                     nm = access_path(hm, q.root[2]["ops"][0], VP)
                     kd = access_path(hm, q.root[2]["ops"][1], VP)
@@ -682,7 +687,78 @@ def r6_tag_policy(ctx):
             raise A.LeavesFragment("get(%s, %s)" % (m[0], k[0]))
         return A.V_some(A.V_ref(A.Cell(A.V_opaque("TagDetails")))) if k[1] in m[1] else A.V_none()
 
+    # iterator adaptors over a concrete list (std semantics: the predicate is applied to the items in order; find / any / all / position
+    # stop at the first decisive item).  Items of a slice iterator are references to the elements.
+    def _iter_of(it, v):
+        v = it.deref_all(v)
+        if v is None or v[0] != "iter":
+            raise A.LeavesFragment("iterator adaptor on %s" % (v[0] if v else None))
+        return v
+
+    def _item(v, i):
+        return A.V_ref(A.Cell(v[1][i]))
+
+    def _truth(it, r):
+        r = it.deref_all(r)
+        if r is None or r[0] != "bool":
+            raise A.LeavesFragment("predicate returned a non-boolean")
+        return r[1]
+
+    def s_find(it, argv, t):
+        v = _iter_of(it, argv[0])
+        while v[2][0] < len(v[1]):
+            i = v[2][0]
+            v[2][0] = i + 1
+            item = _item(v, i)
+            if _truth(it, it.call_closure(argv[1], A.V_ref(A.Cell(item)))):
+                return A.V_some(item)
+        return A.V_none()
+
+    def s_position(it, argv, t):
+        v = _iter_of(it, argv[0])
+        n = 0
+        while v[2][0] < len(v[1]):
+            i = v[2][0]
+            v[2][0] = i + 1
+            if _truth(it, it.call_closure(argv[1], _item(v, i))):
+                return A.V_some(A.V_int(n))
+            n += 1
+        return A.V_none()
+
+    def s_any(it, argv, t):
+        v = _iter_of(it, argv[0])
+        while v[2][0] < len(v[1]):
+            i = v[2][0]
+            v[2][0] = i + 1
+            if _truth(it, it.call_closure(argv[1], _item(v, i))):
+                return A.V_bool(True)
+        return A.V_bool(False)
+
+    def s_all(it, argv, t):
+        v = _iter_of(it, argv[0])
+        while v[2][0] < len(v[1]):
+            i = v[2][0]
+            v[2][0] = i + 1
+            if not _truth(it, it.call_closure(argv[1], _item(v, i))):
+                return A.V_bool(False)
+        return A.V_bool(True)
+
+    def s_filter(it, argv, t):
+        v = _iter_of(it, argv[0])
+        keep = [v[1][i] for i in range(v[2][0], len(v[1])) if _truth(it, it.call_closure(argv[1], A.V_ref(A.Cell(_item(v, i)))))]
+        return ("iter", keep, [0])
+
+    def s_count(it, argv, t):
+        v = _iter_of(it, argv[0])
+        return A.V_int(len(v[1]) - v[2][0])
+
+    def s_same_iter(it, argv, t):
+        return _iter_of(it, argv[0])
+
     summ = {
+        "std::iter::Iterator::find": s_find, "std::iter::Iterator::position": s_position, "std::iter::Iterator::any": s_any, "std::iter::Iterator::all": s_all,
+        "std::iter::Iterator::filter": s_filter, "std::iter::Iterator::count": s_count, "std::iter::Iterator::by_ref": s_same_iter,
+        "std::iter::Iterator::peekable": s_same_iter, "std::iter::Iterator::fuse": s_same_iter,
         "std::vec::Vec::<T, A>::len": s_len, "std::vec::Vec::<T, A>::is_empty": s_is_empty,
         "std::iter::IntoIterator::into_iter": s_into_iter, "core::slice::<impl [T]>::iter": s_into_iter, "std::vec::Vec::<T, A>::iter": s_into_iter,
         "std::iter::Iterator::next": s_next,
@@ -795,6 +871,19 @@ SELFTEST = [
     {"name": "unknown-tags-check-inverted", "kind": "mutant", "expect": ["C02.R6"],
      "edits": [(AD, "if !self.tag_config.allow_other_tags {", "if self.tag_config.allow_other_tags {")],
      "why": "unconfigured tags are accepted exactly when the policy forbids them"},
+    # ---- breaking changes written in the alternative idioms the rules accept
+    {"name": "conflict-search-skips-first", "kind": "mutant", "expect": ["C02.R4"],
+     "edits": [(RT, '        for handler in existing_handlers.iter() {\n            if handler.versions.overlaps_with(&endpoint.versions) {\n                if handler.versions == endpoint.versions {', "        if let Some(handler) = existing_handlers.iter().skip(1).find(|h| h.versions.overlaps_with(&endpoint.versions)) {\n            {\n                if handler.versions == endpoint.versions {")],
+     "why": "the conflict test written as iter().find(..), but over all handlers except the first registered one"},
+    {"name": "conflict-search-inverted", "kind": "mutant", "expect": ["C02.R4"],
+     "edits": [(RT, '        for handler in existing_handlers.iter() {\n            if handler.versions.overlaps_with(&endpoint.versions) {\n                if handler.versions == endpoint.versions {', "        if let Some(handler) = existing_handlers.iter().find(|h| !h.versions.overlaps_with(&endpoint.versions)) {\n            {\n                if handler.versions == endpoint.versions {")],
+     "why": "the conflict test written as iter().find(..) with the predicate negated: disjoint ranges are refused, overlapping ones accepted"},
+    {"name": "unknown-tags-search-inverted", "kind": "mutant", "expect": ["C02.R6"],
+     "edits": [(AD, '            for tag in &e.tags {\n                if !self.tag_config.tags.contains_key(tag) {\n                    return Err(format!("Invalid tag: {}", tag));\n                }\n            }\n', "            if let Some(tag) = e.tags.iter().find(|t| self.tag_config.tags.contains_key(*t)) {\n                return Err(format!(\"Invalid tag: {}\", tag));\n            }\n")],
+     "why": "the unknown-tag scan written with Iterator::find, but reporting the first configured tag instead of the first unknown one"},
+    {"name": "validation-result-ignored", "kind": "mutant", "expect": ["C02.R1"],
+     "edits": [(AD, "            s.validate_path_parameters(&e)?;\n", "            if let Err(_unused) = s.validate_path_parameters(&e) {}\n")],
+     "why": "the validation is still called but its Err no longer stops the registration"},
     # ---------------------------------------------------------------- benign variants
     {"name": "benign-negated-equality", "kind": "benign",
      "edits": [(RT, "if *new_varname != *varname {\n                                // Don't allow people", "if !(*new_varname == *varname) {\n                                // Don't allow people")],
@@ -821,6 +910,22 @@ SELFTEST = [
     {"name": "benign-visible-compared-with-false", "kind": "benign",
      "edits": [(AD, "if !e.visible {", "if e.visible == false {")],
      "why": "behaviour-preserving: !b written as b == false"},
+    {"name": "benign-conflict-test-as-find", "kind": "benign",
+     "edits": [(RT, '        for handler in existing_handlers.iter() {\n            if handler.versions.overlaps_with(&endpoint.versions) {\n                if handler.versions == endpoint.versions {', "        if let Some(handler) = existing_handlers.iter().find(|h| h.versions.overlaps_with(&endpoint.versions)) {\n            {\n                if handler.versions == endpoint.versions {")],
+     "why": "behaviour-preserving: the loop that panics at the first overlapping handler written as iter().find(..) + if let"},
+    {"name": "benign-conflict-test-as-position", "kind": "benign",
+     "edits": [(RT, '        for handler in existing_handlers.iter() {\n            if handler.versions.overlaps_with(&endpoint.versions) {\n                if handler.versions == endpoint.versions {', "        if let Some(at) = existing_handlers.iter().position(|h| h.versions.overlaps_with(&endpoint.versions)) {\n            {\n                let handler = &existing_handlers[at];\n                if handler.versions == endpoint.versions {")],
+     "why": "behaviour-preserving: the first overlapping handler located with iter().position(..)"},
+    {"name": "benign-unknown-tag-scan-as-find", "kind": "benign",
+     "edits": [(AD, '            for tag in &e.tags {\n                if !self.tag_config.tags.contains_key(tag) {\n                    return Err(format!("Invalid tag: {}", tag));\n                }\n            }\n', "            if let Some(tag) = e.tags.iter().find(|t| !self.tag_config.tags.contains_key(*t)) {\n                return Err(format!(\"Invalid tag: {}\", tag));\n            }\n")],
+     "why": "behaviour-preserving: the for loop with early return written as Iterator::find"},
+    {"name": "benign-variable-arms-merged", "kind": "benign",
+     "edits": [(AD, "                PathSegment::VarnameSegment(v) => Some(v),\n                PathSegment::VarnameWildcard(v) => Some(v),\n",
+                "                PathSegment::VarnameSegment(v) | PathSegment::VarnameWildcard(v) => Some(v),\n")],
+     "why": "behaviour-preserving: two match arms with identical bodies merged into one or-pattern"},
+    {"name": "benign-validation-error-by-match", "kind": "benign",
+     "edits": [(AD, "            s.validate_tags(&e)?;\n", "            if let Err(message) = s.validate_tags(&e) {\n                return Err(message);\n            }\n")],
+     "why": "behaviour-preserving: `?` on a Result<(), String> written as if-let + return"},
     {"name": "benign-panic-in-helper", "kind": "benign",
      "edits": [(RT, _CONTAINS_PANIC, "    if varnames.contains(new_varname) {\n        duplicate_variable(path, new_varname);\n    }\n"),
                (RT, "/// Insert a variable into the set after checking for duplicates.",
